@@ -1248,6 +1248,13 @@ void ppDiv(word q[], word r[], const word a[], size_t n, const word b[],
 		wwCopy(r, a, m);
 		return;
 	}
+	// b == 1? => q <- a, r <- 0
+	if (m == 1 && b[0] == 1)
+	{
+		wwCopy(q, a, n);
+		r[0] = 0;
+		return;
+	}
 	// резервируем переменные в stack
 	divident = (word*)stack;
 	divisor = divident + n + 1;
@@ -1275,7 +1282,8 @@ void ppDiv(word q[], word r[], const word a[], size_t n, const word b[],
 	_DIV_PRE_S4(w1, divisor[m - 1]);
 	_MUL_PRE_S4(w2, divisor[m - 1]);
 	// цикл по разрядам делимого
-	for (i = n; i >= m; --i)
+	// (при shift == 0 слова q[n - m] с уменьшенным m нет, а divident[n] == 0)
+	for (i = shift ? n : n - 1; i >= m; --i)
 	{
 		// q[i - m] <- divident[i] \div divisor[m - 1]
 		dividentHi = divident[i];
@@ -1323,6 +1331,12 @@ void ppMod(word r[], const word a[], size_t n, const word b[], size_t m,
 		if (n < m)
 			wwSetZero(r + n, m - n), m = n;
 		wwCopy(r, a, m);
+		return;
+	}
+	// b == 1? => r <- 0
+	if (m == 1 && b[0] == 1)
+	{
+		r[0] = 0;
 		return;
 	}
 	// резервируем переменные в stack
